@@ -360,6 +360,10 @@ def run(db, rep, tier):
     r1(db, rep)
     r2(db, rep)
     r3(db, rep)
+    # the ephemeron fix-point decides which WeakMap / WeakRef / FinalizationRegistry targets survive a collection:
+    # stopping it early makes collection observable (same instance as C09-R4)
+    import c09
+    c09.r4(db, rep)
     rep.assumptions += [
         "closures stored in traced types capture no GC values (boa's documented `unsafe` closure contract)",
         "foreign container types hold GC edges only through their type arguments",
